@@ -10,6 +10,8 @@ the check produces; the full statement `validate (serialize t c) = []` for a mod
 import Sqfs.Proofs.DirWriter
 import Sqfs.Proofs.MetaWriter
 import Sqfs.Proofs.IdTable
+import Sqfs.Proofs.Finish
+import Sqfs.Proofs.Numbering
 namespace Sqfs.C03
 open Sqfs.Consts
 
@@ -229,6 +231,65 @@ theorem id_count_fits (ids t is : List Nat) (h : addAll limit [] ids = some (t, 
 
 end Ids
 
+/-! ## table order, bytes_used, padding -/
+section Fin
+open Sqfs.Finish
+
+/--
+`sqfs_writer_finish`, for every combination of present/absent optional tables and every size: the table starts it
+records come in the order readers insist on (inode table, directory table, fragment, export, id, xattr — absent
+tables skipped) and all lie below `bytes_used`; `bytes_used` is the data end plus exactly the bytes the tables
+occupy (no gap, nothing counted twice); the file is padded with fewer than one device block to a multiple of it.
+-/
+theorem finish_order (i : Input) (hd : 0 < i.devblk) :
+    (finish i).inodeTable = i.dataEnd ∧ (finish i).inodeTable ≤ (finish i).dirTable ∧
+    (∀ t, i.frag = some t → (finish i).dirTable ≤ (finish i).fragTable) ∧
+    (∀ t, i.exportTbl = some t → (finish i).dirTable ≤ (finish i).exportTable ∧
+        (∀ f, i.frag = some f → (finish i).fragTable < (finish i).exportTable ∨ (f.blocks = 0 ∧ t.blockBytes = 0))) ∧
+    (finish i).dirTable ≤ (finish i).idTable ∧
+    (∀ t, i.frag = some t → (finish i).fragTable ≤ (finish i).idTable) ∧
+    (∀ t, i.exportTbl = some t → (finish i).exportTable ≤ (finish i).idTable) ∧
+    (∀ x, i.xattr = some x → (finish i).idTable ≤ (finish i).xattrTable ∧ (finish i).xattrTable < (finish i).bytesUsed) ∧
+    (finish i).idTable ≤ (finish i).bytesUsed ∧
+    (finish i).bytesUsed = i.dataEnd + i.inodeBytes + i.dirBytes + tblBytes i.frag + tblBytes i.exportTbl
+                            + tblBytes (some i.id) + xBytes i.xattr ∧
+    (finish i).bytesUsed ≤ (finish i).fileSize ∧ (finish i).fileSize % i.devblk = 0 ∧
+    (finish i).fileSize < (finish i).bytesUsed + i.devblk := by
+  obtain ⟨p1, p2⟩ := padSize_spec (finish i).bytesUsed i.devblk hd
+  have hfs : (finish i).fileSize = (finish i).bytesUsed + padSize (finish i).bytesUsed i.devblk := by
+    unfold finish; rcases i.frag <;> rcases i.exportTbl <;> rcases i.xattr <;> rfl
+  rw [hfs]
+  refine ⟨?_, ?_, ?_, ?_, ?_, ?_, ?_, ?_, ?_, ?_, by omega, p1, by omega⟩ <;>
+    (rcases hf : i.frag with _ | f <;> rcases he : i.exportTbl with _ | e <;> rcases hx : i.xattr with _ | x <;>
+       simp [finish, writeTbl, tblBytes, xBytes, hf, he, hx] <;> try omega)
+
+/-- `padd_sqfs`: the padded size is a multiple of the device block size and fewer than one block is added -/
+theorem pad_multiple (size bs : Nat) (h : 0 < bs) : (size + padSize size bs) % bs = 0 ∧ padSize size bs < bs :=
+  padSize_spec size bs h
+
+end Fin
+
+/-! ## inode numbering (`alloc_inode_num_dfs`) -/
+section Num
+open Sqfs.Numbering
+
+/--
+For every tree: the numbers `alloc_inode_num_dfs` + `fstree_post_process` hand out (every node except hard-link
+entries, the root last) are a permutation of `1, …, N` where `N` is the count stored in `unique_inode_count` —
+"inode numbers are exactly 1..N for the N inodes the superblock announces" — and numbering changes nothing else
+(forgetting the numbers gives back the input tree).
+-/
+theorem inode_numbers_bijective (cs : List Tree) :
+    (numsT (numberRoot cs).1).Perm (List.range' 1 (numberRoot cs).2) ∧ eraseT (numberRoot cs).1 = .dir cs :=
+  ⟨numberRoot_perm cs, numberRoot_shape cs⟩
+
+/-- every directory's number is larger than every number inside its subtree (children are serialised, and their
+inode references known, before the parent's listing is written) -/
+theorem children_before_parent (cs : List Tree) : OrdT (numberRoot cs).1 :=
+  numberRoot_ordered cs
+
+end Num
+
 /-! ## non-vacuity: the hypotheses above are satisfiable by non-trivial instances -/
 section Examples
 open Sqfs.DirWriter Sqfs.MetaWriter Sqfs.IdTable
@@ -257,6 +318,13 @@ example : (run toyCodec [[1, 2, 3, 4, 5]]).out = [⟨true, [1, 2, 3, 4], [1, 2, 
 example : processBlock toyCodec ⟨0, [1, 2, 3, 4, 5]⟩ = ⟨32768, [1, 2, 3, 4]⟩ := by decide
 
 example : addAll limit [] [1000, 0, 1000, 7] = some ([1000, 0, 7], [0, 1, 0, 2]) := by decide
+
+example : Sqfs.Numbering.numberRoot [.file, .dir [.file, .hlink, .dir [.file]], .file] =
+    (.dir 7 [.file 4, .dir 5 [.file 2, .hlink, .dir 3 [.file 1]], .file 6], 7) := by rfl
+
+/-- the layout of the first image of the design notes (gzip, 5 inodes, one fragment, one id) -/
+example : Sqfs.Finish.finish ⟨512455, 93, 55, some ⟨18, 1⟩, none, ⟨6, 1⟩, none, 4096⟩ =
+    ⟨512455, 512548, 512621, Sqfs.Finish.NOTBL, 512635, Sqfs.Finish.NOTBL, 512643, 516096⟩ := by decide
 
 end Examples
 
